@@ -17,7 +17,7 @@ import sys
 import multiprocessing
 
 from harness import core
-from harness.impl import corpus
+from harness.impl import corpus, exprgen
 
 META = {
     "driver": "drv_globals",
@@ -97,11 +97,14 @@ def probes():
 class Quiet:
     def __enter__(self):
         self.old = sys.stderr
+        self.oldout = sys.stdout
         sys.stderr = self.buf = io.StringIO()
+        sys.stdout = io.StringIO()   # some library messages go to stdout (print(..., sys.stderr) without file=)
         return self
 
     def __exit__(self, *a):
         sys.stderr = self.old
+        sys.stdout = self.oldout
 
     def nwarn(self):
         return len([l for l in self.buf.getvalue().split("\n") if l.strip()])
@@ -149,6 +152,13 @@ def exec_op(op):
                 ev(s).realize()
             elif kind == "warn":
                 ev(op[1]).realize()
+            elif kind == "realize2":
+                do_load(op[2])
+                try:
+                    e = ev(op[1])
+                finally:
+                    do_load(op[3])
+                e.realize()
             elif kind == "oneOf":
                 for _ in range(op[2]):
                     getattr(pyrealb, op[1])(*op[3])
@@ -192,10 +202,15 @@ MODEL_NAME = {"loadEn": "loadEn", "loadFr": "loadFr", "loadOther": "loadOther", 
               "warn": "warn", "oneOf": "oneOf", "lemmata": "build"}
 
 
-def model_op(op):
+def model_ops(op):
+    """the model operations one history op stands for"""
     if op[0] == "lexAdd":
-        return "lexAdd:" + (op[1] or "cur")
-    return MODEL_NAME[op[0]]
+        return ["lexAdd:" + (op[1] or "cur")]
+    if op[0] == "lemmata":      # buildLemmataMap(lang) loads lang
+        return ["loadEn" if op[1] == "en" else "loadFr"]
+    if op[0] == "realize2":     # build under one language, realize under another
+        return ["loadEn" if op[2] == "en" else "loadFr", "build", "loadEn" if op[3] == "en" else "loadFr", "realize"]
+    return [MODEL_NAME[op[0]]]
 
 
 WARNERS = ['N("qwxz")', 'V("love").t("zz")', 'NP(D("the"),N("cat")).n("x")', 'S(VP(V("glorp")))', 'A("grand").f("zz")',
@@ -222,8 +237,15 @@ def gen_history(rng, with_mgmt):
                 cur = e["lang"]
                 hist.append(["loadEn" if cur == "en" else "loadFr"])
             hist.append([rng.choice(["realize"] * 6 + ["build", "str", "clone", "toJSON", "fromJSON", "toSource"]), e["src"]])
-        elif r < 0.85:
+        elif r < 0.78:
             hist.append(["warn", rng.choice(WARNERS)])
+        elif r < 0.85:
+            # generated expressions (valid or malformed, explicit lang= or not), built under one language and realized
+            # under a possibly different one: warnings of constituents of one language while the other is current
+            g = exprgen.generate(rng, 1, malformed=rng.choice([0.0, 0.15, 0.4]))[0]
+            b, rl = g["lang"], rng.choice(["en", "fr"])
+            hist.append(["realize2", g["src"], b, rl])
+            cur = rl
         elif r < 0.95 or not with_mgmt:
             alts = [["a", "b", "c"], ["x", "y"], [1, 2, 3, 4]][rng.randrange(3)]
             hist.append(["oneOf", rng.choice(["oneOf", "choice", "mix"]), rng.randint(1, 6), alts])
@@ -236,7 +258,7 @@ def gen_history(rng, with_mgmt):
 
 def opsig(op):
     k = op[0]
-    if k in ("realize", "build", "str", "clone", "toJSON", "fromJSON", "toSource", "warn"):
+    if k in ("realize", "build", "str", "clone", "toJSON", "fromJSON", "toSource", "warn", "realize2"):
         head = op[1].split("(")[0]
         return "%s:%s" % (k, head)
     if k == "oneOf":
@@ -269,7 +291,14 @@ def fork_run(hist):
 
 def mgmt_part(hist):
     """what determines the lexicon contents: the management calls and the language switches that select their target"""
-    mg = [op for op in hist if op[0] in ("lexAdd", "loadEn", "loadFr")]
+    mg = []
+    for op in hist:
+        if op[0] in ("lexAdd", "loadEn", "loadFr"):
+            mg.append(op)
+        elif op[0] == "realize2":
+            mg.append(["loadEn" if op[3] == "en" else "loadFr"])
+        elif op[0] == "lemmata":
+            mg.append(["loadEn" if op[1] == "en" else "loadFr"])
     return mg if any(op[0] == "lexAdd" for op in mg) else []
 
 
@@ -336,7 +365,7 @@ def run(ctx, deep=False):
         results = pool.map(_task, [("hist", h) for h in hists], chunksize=1)
     fresh_of = dict(zip(mgkeys.keys(), fresh_list))
     # model prediction of the language after every step and of which resources change
-    model = core.run_driver([{"op": "ghist", "ops": [model_op(op) for op in h]} for h in hists], ctx.driver)
+    model = core.run_driver([{"op": "ghist", "ops": [m for op in h for m in model_ops(op)]} for h in hists], ctx.driver)
     pristine = _G["pristine"]
     ps = probes()
     kinds = {}
@@ -349,7 +378,11 @@ def run(ctx, deep=False):
                   trivial=not any(o[0] in ("realize", "clone", "fromJSON", "toSource", "str") for o in h))
         for o in h:
             kinds[o[0]] = kinds.get(o[0], 0) + 1
-        mlangs = [s["lang"] for s in m["steps"]]
+        # language after each HISTORY op = after the last model op it stands for
+        idx, mlangs = 0, []
+        for op in h:
+            idx += len(model_ops(op))
+            mlangs.append(m["steps"][idx - 1]["lang"])
         if mlangs != res["langs"]:
             ctx.diff(line, {"langs": mlangs}, {"langs": res["langs"]})
         mg = mgmt_part(h)
